@@ -154,6 +154,19 @@ impl PropertyValue {
         }
     }
 
+    /// Returns the number of bytes, including any padding bytes, that will be
+    /// written by the `write()` method when strings are encoded with the
+    /// given code page.
+    fn encoded_size_including_padding(&self, codepage: CodePage) -> u32 {
+        match self {
+            PropertyValue::LpStr(ref string) => {
+                let length = codepage.encode(string.as_str()).len() as u32;
+                ((12 + length) >> 2) << 2
+            }
+            value => value.size_including_padding(),
+        }
+    }
+
     /// Returns the minimum format version at which this value type is
     /// supported.
     fn minimum_version(&self) -> PropertyFormatVersion {
@@ -339,7 +352,8 @@ impl PropertySet {
         let mut property_offsets: Vec<u32> = Vec::new();
         for (_, value) in self.properties.iter() {
             property_offsets.push(section_size);
-            section_size += value.size_including_padding();
+            section_size +=
+                value.encoded_size_including_padding(self.codepage);
         }
         writer.write_u32::<LittleEndian>(section_size)?;
         writer.write_u32::<LittleEndian>(num_properties)?;
